@@ -73,6 +73,11 @@ def _populate(mount):
         f.write(b'1,2,"abc"\r\nline two\r\n3.5\r\n\x1a')
     with open(os.path.join(mount, 'PROG.BAS'), 'wb') as f:
         f.write(b'10 PRINT "prog"\r\n20 X=1\r\n30 END\r\n\x1a')
+    # the same kind of program in tokenised and in protected format
+    with open(os.path.join(mount, 'PROGB.BAS'), 'wb') as f:
+        f.write(b'\xff\x7f\x12\n\x00\x91 "prog":X\xe7\x12\x00\x89\x12\x14\x00\x89 \x0e\x1e\x00\x00\x8f\x12\x1e\x00\x81\x00\x00\x00\x1a')
+    with open(os.path.join(mount, 'PROGP.BAS'), 'wb') as f:
+        f.write(b'\xfe\xd0\xa9\xbfT\xe2\x12\xbd\x81\x13b\x02\xd4\xc8/0\xb3\xb2\x1a\x01\x1a\x13\xdd\x8c\x198\x1a\x83\x96o\xb1\xdet\xc7\x92\xcc\x1a')
     with open(os.path.join(mount, 'RND.DAT'), 'wb') as f:
         f.write(bytes(range(64)))
     os.makedirs(os.path.join(mount, 'SUB'), exist_ok=True)
